@@ -20,7 +20,9 @@ Kinds == {"struct", "generic_struct", "unit_struct", "newtype_struct", "tuple_st
 Namings == {"plain", "kw_swift", "kw_py", "kw_both", "kw_type", "kw_dashed", "kebab_kw", "dashed", "rename_all_kebab", "rename_all_upper", "digit", "quote", "unicode", "single_letter", "kw_py_edge", "underscore_digit"}
 TypeFeatures == {"prim", "option", "vec_option", "map", "user", "generic", "override_lang", "serialized_as", "unit", "array", "nested", "boxed_self", "i64", "default_attr", "datetime", "bytes"}
 Decos == {"none", "swift_deco", "swift_decos2", "kotlin_deco", "redacted", "constraints", "item_serialized_as", "readonly"}
-Docs == {"none", "all", "multiline"}
+\* hostile / hostile_multi: doc text (one line / the second of three lines) with the tokens that end or open a comment or a string in
+\* some target language: */ /* """ a trailing backslash. C15 judges where the text ends up; here the file must stay well formed.
+Docs == {"none", "all", "multiline", "hostile", "hostile_multi"}
 \* folder: folder-output mode with a second crate whose type is imported (import lines are part of the file)
 Cfgs == {"default", "prefix", "packages", "swift_defaults", "header", "folder", "folder_prefix"}
 
